@@ -1,4 +1,165 @@
-(* C08 - placeholder while the proofs are being written *)
-From Verif Require Import Base.Prelude.
-Theorem C08_placeholder : True. Proof. exact I. Qed.
-Print Assumptions C08_placeholder.
+(* C08 - The binary (CBOR) build decodes to the same event the JSON build emits.
+   Statements only; proofs are [exact <lemma>] from Proofs/C08P.v
+   (on top of Proofs/Cbor2JsonP.v, Proofs/CborDecP.v, Proofs/JsonEncP.v).
+
+   For one field list [kvs] (keys with values; a value is a primitive, an
+   Arr() of values or a Dict() of fields, to any depth):
+     binary build:  enc_event ft fd kvs          (Enc/CborEnc.v), decoded by
+                    the model of decode_stream.go (Enc/CborDec.v);
+     JSON build:    json_event JO (-1) fd kvs    (Enc/JsonEv.v over Enc/JsonEnc.v),
+                    FloatingPointPrecision = -1, TimeFieldFormat a layout.
+   As in C09, the assumption about the Event / Context / Array API is that
+   the bytes of one event are these compositions of the primitives; the
+   context splice of both builds is proved to give the concatenated field
+   list (C09_context_splice, C08_context_splice).
+
+   PREMISES, all explicit.
+   [c08_oracles Orc JO ft fd] - both builds call the same Go library:
+     co_time_range, co_dur_range: the encoder's float conversions return 64-bit patterns;
+     co_bits32/64: the JSON side's float record of a bit pattern is about that pattern;
+     co_f32/64:   the decoder's strconv.AppendFloat(v,'f',-1,bits) text is the
+                  JSON encoder's 'f' text of the same float;
+     co_fa32/64:  strconv's 'f' text and its (exponent-cleaned) 'e' text are JSON
+                  numbers and denote the same number (num_value) - strconv's
+                  correctness; validated by the driver on every float it generates;
+     co_time:     for whole-second instants the JSON layout text is the text the
+                  decoder prints (RFC3339, times in UTC);
+     co_time_plain: a layout text needs no escaping.
+   [wf_fields] / [small_fields] - bytes are bytes, integers in range, lengths < 2^60.
+   [fields_c08] - what the property quantifies over, per value ([prim_c08]):
+     whole-second times (fractional: C08_time_partial), embedded JSON that is
+     JSON, 4/16-byte IPs, 6-byte MACs, canonical prefixes - for these the JSON
+     side's net text equals the text of the decoder's model of the same net
+     function and needs no escaping; base64 text; integer durations that fit
+     int64 (not MinInt64 / -1).
+   No field kind of the encoder is left out. *)
+From Coq Require Import QArith Qabs.
+From Verif Require Import Base.Prelude Base.Decimal Base.Utf8 Base.JsonSpec Base.CborSpec.
+From Verif Require Import Enc.CborEnc Enc.CborDec Proofs.CborEncP Proofs.CborDecP Proofs.Cbor2JsonP.
+From Verif Require Import Enc.JsonEnc Enc.JsonEv Proofs.JsonEncP Proofs.C08P.
+Open Scope N_scope.
+
+(* THE property: for all field lists the decoder turns the binary event into
+   a JSON text t1, the JSON build writes t2 and a newline, both are JSON, and
+   their values are equivalent: same keys in the same order, strings / bools /
+   null equal, numbers numerically equal, arrays and objects recursively *)
+Theorem C08_decode_equiv : forall Orc JO ft fd, c08_oracles Orc JO ft fd ->
+  forall kvs, wf_fields kvs -> small_fields kvs -> fields_c08 JO kvs ->
+  exists t1 v1 t2 v2,
+    decodes Orc (enc_event ft fd kvs) t1 /\ Json t1 v1 /\
+    JsonEv.json_event JO (-1) fd kvs = t2 ++ [10] /\ Json t2 v2 /\ jv_equiv v1 v2.
+Proof. exact C08_main. Qed.
+
+(* the same through Cbor2JsonManyObjects: exactly one line, no error *)
+Theorem C08_decode_equiv_line : forall Orc JO ft fd, c08_oracles Orc JO ft fd ->
+  forall kvs, wf_fields kvs -> small_fields kvs -> fields_c08 JO kvs -> fits_memory (enc_event ft fd kvs) ->
+  exists t1 v1 t2 v2 a,
+    cbor2json Orc (enc_event ft fd kvs) = (t1 ++ [10], FOk, a) /\ Json t1 v1 /\
+    JsonEv.json_event JO (-1) fd kvs = t2 ++ [10] /\ Json t2 v2 /\ jv_equiv v1 v2.
+Proof. exact C08_main_line. Qed.
+
+(* per primitive: the decoder's text of the CBOR bytes, the JSON build's text,
+   both JSON, equivalent values *)
+Theorem C08_primitive_equiv : forall Orc JO ft fd, c08_oracles Orc JO ft fd ->
+  forall p, wf_prim p -> small_prim p -> prim_c08 JO p ->
+  exists t1 v1 v2, Cbor2JsonP.json_prim Orc ft fd p = Some t1 /\ item_json Orc (enc_prim ft fd [] p) t1 /\
+    (forall dst, JsonEv.json_prim JO (-1) fd dst p = dst ++ jt_prim JO fd p) /\
+    Json t1 v1 /\ Json (jt_prim JO fd p) v2 /\ jv_equiv v1 v2.
+Proof. exact C08_prim. Qed.
+
+(* the JSON build's context splice (AppendObjectData) yields the line of the concatenated field list *)
+Theorem C08_context_splice : forall Orc JO ft fd, c08_oracles Orc JO ft fd ->
+  forall pre ctx ev, wf_fields (pre ++ ctx ++ ev) -> small_fields (pre ++ ctx ++ ev) -> fields_c08 JO (pre ++ ctx ++ ev) ->
+  JsonEv.json_event_ctx JO (-1) fd pre ctx ev = JsonEv.json_event JO (-1) fd (pre ++ ctx ++ ev).
+Proof. exact C08_splice. Qed.
+
+(* the defect fixed by e480b62: all 64-bit unsigned and signed integers decode
+   to their exact decimal text - the JSON build's text - which reads back as the number *)
+Theorem C08_uint_exact : forall Orc n, n < 2 ^ 64 ->
+  item_json Orc (cbor_AppendUint64 [] n) (print_N n) /\ AppendUint [] n = print_N n /\ parse_N (print_N n) = Some n.
+Proof. exact uint_exact. Qed.
+
+Theorem C08_int_exact : forall Orc z, int64_ok z ->
+  item_json Orc (cbor_AppendInt64 [] z) (print_Z z) /\ AppendInt [] z = print_Z z /\ parse_Z (print_Z z) = Some z.
+Proof. exact int_exact. Qed.
+
+(* the defect fixed by cb46159: Bytes decode with the escaping of text strings:
+   the JSON build's text, a JSON string denoting Go's reading of the bytes *)
+Theorem C08_bytes_escaped : forall Orc s, wf_str s -> len s < 2 ^ 63 ->
+  item_json Orc (cbor_AppendBytes [] s) (json_string s) /\
+  item_json Orc (cbor_AppendString [] s) (json_string s) /\
+  AppendBytes [] s = json_string s /\ JString (json_string s) (go_runes s).
+Proof. exact bytes_escaped. Qed.
+
+(* fractional timestamps (PARTIAL: everything numeric is assumed, see the
+   comment in Proofs/C08P.v): if (A1) the float64 conversion is within e1 of
+   the exact instant, (A2) the decoder's text denotes an instant within e2 of
+   the float, (A3) the JSON layout text denotes the whole second, then the
+   decoded text is the quoted RFC3339Nano text, denotes an instant within
+   e1+e2 of the logged one, and agrees with the JSON text at the layout's
+   precision up to e1+e2 (e1 + e2 <= 1e-6 s for |secs| < 2^33) *)
+Theorem C08_time_partial : forall Orc JO ft (val64 : N -> Q) (inst : list N -> option Q) (e1 e2 : Q) secs nanos txt q j,
+  nanos <> 0 -> nanos < 1000000000 ->
+  o_tsf Orc W64 (canon64 (ft secs nanos)) = Some txt ->
+  (Qabs (val64 (canon64 (ft secs nanos)) - exact_instant secs nanos) <= e1)%Q ->
+  inst txt = Some q -> (Qabs (q - val64 (canon64 (ft secs nanos))) <= e2)%Q ->
+  inst (jo_time JO (secs, nanos)) = Some j -> j = inject_Z secs ->
+  time_json Orc ft (secs, nanos) = Some (CborDec.quote txt) /\
+  (Qabs (q - exact_instant secs nanos) <= e1 + e2)%Q /\
+  (j <= q + (e1 + e2) /\ q - (e1 + e2) < j + 1)%Q.
+Proof. exact time_partial. Qed.
+
+Theorem C08_equiv_refl : forall v, jv_equiv v v.
+Proof. exact jv_equiv_refl. Qed.
+
+(* ---- non-vacuity: oracles meeting [c08_oracles], a nested field list meeting the premises ---- *)
+Definition exO : oracle := mkoracle (fun _ => Some [48]) (fun _ => Some [48]) (fun _ => Some [84]) (fun _ _ => None).
+Definition exF (b : N) : fval := {| f_bits := b; f_txt_f := [48]; f_txt_e := [48; 101; 43; 48; 48] |}.
+Definition exJ : joracle :=
+  mkjoracle exF exF (fun _ => [84]) ip_string mac_string (fun ip m => ipnet_string ip (mask_size_ones m mod 256))
+            (fun s => b64enc (length s) s).
+Definition ex_ft (s : Z) (n : N) : N := 0.
+Definition ex_fd (d u : Z) : N := 0.
+
+Example C08_ex_oracles : c08_oracles exO exJ ex_ft ex_fd.
+Proof.
+  constructor; try reflexivity; try (intros; vm_compute; reflexivity).
+  - intros b. split; [split; vm_compute; reflexivity|vm_compute; reflexivity].
+  - intros b. split; [split; vm_compute; reflexivity|vm_compute; reflexivity].
+  - intros t. apply plain_ascii. repeat constructor; unfold printable; lia.
+Qed.
+
+Definition ex_kvs : list (list N * cval) :=
+  [ ([108;101;118;101;108], VP (PString [105;110;102;111]));
+    ([117], VP (PUint 18446744073709551615));
+    ([98], VP (PBytes [97;34;98;92;99;10;255]));
+    ([102], VP (PFs64 [4607182418800017408; 9221120237041090560]));
+    ([116], VP (PTime (1700000000%Z, 0)));
+    ([105;112], VP (PIP [10;0;0;1]));
+    ([97], VArr [VP (PBool true); VDict [([107], VP PNil)]; VP (PHex [171;205])]);
+    ([106], VP (PJSON [123;34;120;34;58;49;125])) ].
+
+Example C08_ex_premises : wf_fields ex_kvs /\ small_fields ex_kvs /\ fields_c08 exJ ex_kvs.
+Proof.
+  unfold ex_kvs, wf_fields, small_fields, fields_c08.
+  repeat split; repeat (constructor; cbn [fst snd wf_cval wf_prim small_cval small_prim cval_c08 prim_c08]);
+    unfold wf_str, small_str, bytes_ok, byte_ok, len, int64_ok; cbn [length N.of_nat];
+    repeat (first [split | constructor | lia | (vm_compute; reflexivity) | left; reflexivity]);
+    try (exists (JObj [([120], JNum [49])]); apply parse_json_sound; vm_compute; reflexivity).
+  all: unfold two63Z; lia.
+Qed.
+
+Example C08_ex_texts :
+  Cbor2JsonP.json_fields exO ex_ft ex_fd ex_kvs <> None /\
+  option_map (fun t => t ++ [10]) (Cbor2JsonP.json_fields exO ex_ft ex_fd ex_kvs) = Some (JsonEv.json_event exJ (-1) ex_fd ex_kvs).
+Proof. split; vm_compute; [discriminate|reflexivity]. Qed.
+
+Print Assumptions C08_decode_equiv.
+Print Assumptions C08_decode_equiv_line.
+Print Assumptions C08_primitive_equiv.
+Print Assumptions C08_context_splice.
+Print Assumptions C08_uint_exact.
+Print Assumptions C08_int_exact.
+Print Assumptions C08_bytes_escaped.
+Print Assumptions C08_time_partial.
+Print Assumptions C08_equiv_refl.
